@@ -76,6 +76,9 @@ where
                 let acts = self.s.actions(ctx, &m);
                 let mut o = StepOut::default();
                 self.s.step(ctx, &mut m, &acts[ix], &mut o);
+                if !o.mismatches.is_empty() && std::env::var_os("AXMC_XDEBUG").is_some() {
+                    eprintln!("xcheck mismatch at path {:?} (cfg {}): {:?}", path, self.cfg, o.mismatches);
+                }
                 bad |= !o.mismatches.is_empty();
                 pruned = o.prune;
             }
@@ -111,9 +114,12 @@ where
         let (key, bad, pruned) = self.at(&path, |ctx, m, bad, pruned| {
             let w = self.s.world(ctx);
             let mut o = StepOut::default();
-            let snap = w.snap();
-            self.s.probe(ctx, m, &mut o);
-            w.restore(&snap);
+            // like the explorer, do not enter (hence do not probe) a state behind a pruned transition
+            if !pruned {
+                let snap = w.snap();
+                self.s.probe(ctx, m, &mut o);
+                w.restore(&snap);
+            }
             (key_of(self.cfg, w.state_hash(), m), bad || !o.mismatches.is_empty(), pruned)
         });
         // the explorer does not enter states behind a pruned transition either
